@@ -150,6 +150,7 @@ func init() {
 			}
 			return nil
 		},
+		vpkg + "TempDir": func(fr *frame, a []value) value { return "/zzverif/" + strArg(a[0]) },
 		vpkg + "Yield": func(fr *frame, a []value) value { fr.i.yield(); return nil },
 		vpkg + "Symbolic": func(fr *frame, a []value) value { return true },
 		vpkg + "Logf":     func(fr *frame, a []value) value { return nil },
